@@ -11,7 +11,9 @@ import PV.C17.Clamp
      extends them, `inf`/`nan` get plain zeros;
   3. trailing-zero stripping on digit lists (`stripZeros_*`), and `general_eq_layout`: the `%g` text is the
      reference's layout of the `%e` digits, given `GenDigits` (rounding to P significant digits and to
-     P-1-X decimals agree — a fact about `PV.Dec`, decidable, stated as a hypothesis).
+     P-1-X decimals agree) — which `genDigits_all` proves for every double and every P ≥ 1 (scale
+     invariance of round-half-even, and the carry case 9.99…→10.0);
+  4. `repr_eq_layout` (relative to `ReprDigits`), `floatMagnitude_eq`, `formatFloat_eq`.
 -/
 namespace PV.C18
 open Spec PV.Dec
@@ -607,6 +609,225 @@ theorem general_eq_layout (P mag : Nat) (up alt asf : Bool) (hP : 1 ≤ P)
         rw [this]
         cases asf <;> simp
 
+/-! ## `GenDigits` holds for every double -/
+
+theorem roundHalfEven_scale (a b c : Nat) (hc : 0 < c) :
+    roundHalfEven (a * c) (b * c) = roundHalfEven a b := by
+  unfold roundHalfEven
+  simp only [Nat.mul_div_mul_right a b hc, Nat.mul_mod_mul_right]
+  have e1 : 2 * (a % b * c) > b * c ↔ 2 * (a % b) > b := by
+    rw [← Nat.mul_assoc]; exact Nat.mul_lt_mul_right hc
+  have e2 : 2 * (a % b * c) = b * c ↔ 2 * (a % b) = b := by
+    rw [← Nat.mul_assoc]; exact Nat.mul_right_cancel_iff hc
+  simp only [e1, e2]
+
+theorem le_roundHalfEven_strict (num den a : Nat) (hd : 0 < den) (h : 2 * (a * den) < 2 * num + den) :
+    a ≤ roundHalfEven num den := by
+  have h1 := Nat.div_add_mod num den
+  have h2 := Nat.mod_lt num hd
+  unfold roundHalfEven
+  simp only
+  generalize num / den = q at *
+  generalize num % den = r at *
+  have hqa : a ≤ q + 1 := by
+    by_cases hc : a ≤ q + 1
+    · exact hc
+    · exfalso
+      have : (q + 2) * den ≤ a * den := Nat.mul_le_mul_right _ (by omega)
+      rw [Nat.add_mul, Nat.mul_comm q den] at this
+      omega
+  split
+  · exact hqa
+  · rename_i hnr
+    by_cases hc : a ≤ q
+    · exact hc
+    · exfalso
+      have ha : a = q + 1 := by omega
+      subst ha
+      rw [Nat.add_mul, Nat.mul_comm q den] at h
+      omega
+
+theorem natDigitsGo_head (fuel : Nat) : ∀ n acc, 0 < n → n < 10 ^ fuel →
+    (natDigitsGo fuel n acc).head? ≠ some 0 := by
+  induction fuel with
+  | zero => intro n acc h0 hn; simp at hn; omega
+  | succ f ih =>
+    intro n acc h0 hn
+    unfold natDigitsGo
+    split
+    · simp; omega
+    · exact ih (n / 10) _ (by omega) (by rw [Nat.pow_succ] at hn; omega)
+
+theorem natDigits_head (n : Nat) (h0 : 0 < n) : (natDigits n).head? ≠ some 0 :=
+  natDigitsGo_head _ n [] h0 (lt_ten_pow_log2 n)
+
+theorem carry_round (A den P10 : Nat) (hd : 0 < den) (H1 : 20 * (P10 * den) ≤ 20 * A + den)
+    (H2 : A < P10 * den) : roundHalfEven A den = P10 := by
+  apply Nat.le_antisymm
+  · exact roundHalfEven_le A den P10 hd (Nat.le_of_lt H2)
+  · apply le_roundHalfEven_strict A den P10 hd
+    omega
+
+theorem fixedInt_zero (mag prec : Nat) (hm : (decompose mag).2.1 = 0) : fixedInt mag prec = 0 := by
+  unfold fixedInt
+  simp only [hm]
+  unfold ratOf
+  split
+  · simp [roundHalfEven]
+  · have : 0 < 2 ^ (-(decompose mag).2.2).toNat := Nat.pow_pos (by omega)
+    simp [roundHalfEven]
+
+/-- `GenDigits` holds for every double and every `P ≥ 1`: rounding to `P` significant digits and
+    rounding to `P - 1 - X` decimals (`X` the decimal exponent after rounding) give the same digits. -/
+theorem genDigits_all (mag P : Nat) (hP : 1 ≤ P) : GenDigits mag P := by
+  unfold GenDigits
+  have he := expDigits_eq mag (P - 1)
+  by_cases hm : (decompose mag).2.1 = 0
+  · -- zero
+    rw [if_pos hm] at he
+    rw [he]
+    intro _
+    simp only [Int.sub_zero]
+    refine ⟨?_, by intro h; omega⟩
+    unfold PV.C17.fixedPadded
+    rw [fixedInt_zero mag _ hm]
+    have e : natDigits 0 = [0] := by decide
+    have e1 : ((P : Int) - 1).toNat = P - 1 := by omega
+    rw [e, e1]
+    simp only [List.length_singleton, Int.neg_zero, Int.toNat_zero, List.replicate_zero, List.nil_append]
+    rw [show P - 1 + 1 - 1 = P - 1 by omega, show ([0] : List Nat) = List.replicate 1 0 from rfl,
+      List.replicate_append_replicate]
+  · rw [if_neg hm] at he
+    obtain ⟨hn, hd⟩ := ratOf_pos (decompose mag).2.1 (decompose mag).2.2 (by omega)
+    obtain ⟨b1, b2⟩ := expRound_bounds _ _ (P - 1) hn hd
+    obtain ⟨s1, s2⟩ := ilog10_spec _ _ hn hd
+    have hd1 := scale10_den_pos (ratOf (decompose mag).2.1 (decompose mag).2.2).1 _
+      (-(ilog10 (ratOf (decompose mag).2.1 (decompose mag).2.2).1
+        (ratOf (decompose mag).2.1 (decompose mag).2.2).2)) hd
+    have hhalf := roundHalfEven_half_unit
+      ((scale10 (ratOf (decompose mag).2.1 (decompose mag).2.2).1 (ratOf (decompose mag).2.1 (decompose mag).2.2).2
+        (-(ilog10 (ratOf (decompose mag).2.1 (decompose mag).2.2).1
+          (ratOf (decompose mag).2.1 (decompose mag).2.2).2))).1 * 10 ^ (P - 1)) _ hd1
+    have hfix : ∀ prec, fixedInt mag prec =
+        roundHalfEven ((ratOf (decompose mag).2.1 (decompose mag).2.2).1 * 10 ^ prec)
+          (ratOf (decompose mag).2.1 (decompose mag).2.2).2 := fun prec => rfl
+    have hr : expRound (ratOf (decompose mag).2.1 (decompose mag).2.2).1
+        (ratOf (decompose mag).2.1 (decompose mag).2.2).2 (P - 1) =
+        roundHalfEven ((scale10 (ratOf (decompose mag).2.1 (decompose mag).2.2).1
+          (ratOf (decompose mag).2.1 (decompose mag).2.2).2
+          (-(ilog10 (ratOf (decompose mag).2.1 (decompose mag).2.2).1
+            (ratOf (decompose mag).2.1 (decompose mag).2.2).2))).1 * 10 ^ (P - 1))
+          (scale10 (ratOf (decompose mag).2.1 (decompose mag).2.2).1
+          (ratOf (decompose mag).2.1 (decompose mag).2.2).2
+          (-(ilog10 (ratOf (decompose mag).2.1 (decompose mag).2.2).1
+            (ratOf (decompose mag).2.1 (decompose mag).2.2).2))).2 := rfl
+    unfold PV.C17.fixedPadded
+    simp only [hfix]
+    generalize (ratOf (decompose mag).2.1 (decompose mag).2.2).1 = num at *
+    generalize (ratOf (decompose mag).2.1 (decompose mag).2.2).2 = den at *
+    generalize ilog10 num den = e10 at *
+    rw [← hr] at hhalf
+    generalize hR : expRound num den (P - 1) = r at *
+    obtain ⟨Q, rfl⟩ : ∃ Q, P = Q + 1 := ⟨P - 1, by omega⟩
+    simp only [Nat.add_sub_cancel] at *
+    rw [he]
+    clear he hfix hm
+    have hcast : ((Q + 1 : Nat) : Int) - 1 = (Q : Int) := by omega
+    by_cases hcarry : r ≥ 10 ^ (Q + 1)
+    · -- the rounding carried: r = 10^(Q+1), digits 1000…, exponent e10 + 1
+      rw [if_pos hcarry]
+      simp only [hcast]
+      intro hrange
+      have hr10 : r = 10 ^ (Q + 1) := by omega
+      have hdiv : r / 10 = 10 ^ Q := by
+        rw [hr10, Nat.pow_succ, Nat.mul_div_cancel _ (by omega : 0 < 10)]
+      rw [hdiv]
+      have hlen : (natDigits (10 ^ Q)).length = Q + 1 :=
+        natDigits_length_of_bounds _ Q (Nat.le_refl _) (Nat.pow_lt_pow_right (by omega) (by omega))
+      have hhead := natDigits_head (10 ^ Q) (Nat.pow_pos (by omega))
+      refine ⟨?_, fun _ => hhead⟩
+      -- the fixed rounding gives 10^Q as well
+      have key : roundHalfEven (num * 10 ^ ((Q : Int) - (e10 + 1)).toNat) den = 10 ^ Q := by
+        obtain ⟨hh1, _⟩ := hhalf
+        rw [hr10] at hh1
+        unfold scale10 at hh1 s2 hd1
+        by_cases hneg : -e10 ≥ 0
+        · simp only [hneg, if_true] at hh1 s2 hd1
+          generalize hK : (-e10).toNat = K at *
+          have hf : ((Q : Int) - (e10 + 1)).toNat + 1 = K + Q := by omega
+          have hpw : 10 ^ K * 10 ^ Q = 10 ^ ((Q : Int) - (e10 + 1)).toNat * 10 := by
+            rw [← Nat.pow_add, ← Nat.pow_succ]; congr 1; omega
+          have hA : num * 10 ^ K * 10 ^ Q = num * 10 ^ ((Q : Int) - (e10 + 1)).toNat * 10 := by
+            rw [Nat.mul_assoc, hpw, ← Nat.mul_assoc]
+          rw [hA] at hh1
+          generalize num * 10 ^ ((Q : Int) - (e10 + 1)).toNat = A at *
+          apply carry_round A den (10 ^ Q) hd
+          · rw [Nat.pow_succ] at hh1
+            have : 10 ^ Q * 10 * den = 10 * (10 ^ Q * den) := by
+              rw [Nat.mul_comm (10 ^ Q) 10, Nat.mul_assoc]
+            rw [this] at hh1
+            omega
+          · have h3 : A * 10 < 10 ^ Q * den * 10 := by
+              rw [← hA]
+              have := Nat.mul_lt_mul_of_pos_right s2 (Nat.pow_pos (by omega : 0 < 10) (n := Q))
+              calc num * 10 ^ K * 10 ^ Q < 10 * den * 10 ^ Q := this
+                _ = 10 ^ Q * den * 10 := by ac_rfl
+            omega
+        · simp only [hneg, if_false] at hh1 s2 hd1
+          generalize hE : (- -e10).toNat = E at *
+          have hf : ((Q : Int) - (e10 + 1)).toNat + 1 + E = Q := by omega
+          have hpw : 10 ^ Q = 10 ^ ((Q : Int) - (e10 + 1)).toNat * 10 * 10 ^ E := by
+            rw [← Nat.pow_succ, ← Nat.pow_add]; congr 1; omega
+          have hA : num * 10 ^ Q = num * 10 ^ ((Q : Int) - (e10 + 1)).toNat * 10 * 10 ^ E := by
+            rw [hpw]; simp only [Nat.mul_assoc]
+          rw [hA] at hh1
+          have s2' : num * 10 ^ Q < 10 * (den * 10 ^ E) * 10 ^ Q :=
+            Nat.mul_lt_mul_of_pos_right s2 (Nat.pow_pos (by omega))
+          rw [hA] at s2'
+          generalize num * 10 ^ ((Q : Int) - (e10 + 1)).toNat = A at *
+          have hpE : 0 < 10 ^ E := Nat.pow_pos (by omega)
+          apply carry_round A den (10 ^ Q) hd
+          · have h20 : (20 : Nat) = 2 * 10 := rfl
+            have e1 : 2 * (10 ^ (Q + 1) * (den * 10 ^ E)) = (20 * (10 ^ Q * den)) * 10 ^ E := by
+              rw [Nat.pow_succ, h20]; ac_rfl
+            have e2 : 2 * (A * 10 * 10 ^ E) + den * 10 ^ E = (20 * A + den) * 10 ^ E := by
+              rw [Nat.add_mul, h20]; ac_rfl
+            rw [e1, e2] at hh1
+            exact Nat.le_of_mul_le_mul_right hh1 hpE
+          · have e3 : 10 * (den * 10 ^ E) * 10 ^ Q = (10 ^ Q * den) * (10 * 10 ^ E) := by ac_rfl
+            have e4 : A * 10 * 10 ^ E = A * (10 * 10 ^ E) := by ac_rfl
+            rw [e3, e4] at s2'
+            exact Nat.lt_of_mul_lt_mul_right s2'
+      rw [key, hlen]
+      congr 2
+      omega
+    · -- no carry: r has Q+1 digits, exponent e10
+      rw [if_neg hcarry]
+      simp only [hcast]
+      intro hrange
+      have hrlt : r < 10 ^ (Q + 1) := by omega
+      have hrpos : 0 < r := Nat.lt_of_lt_of_le (Nat.pow_pos (by omega)) b1
+      have hlen : (natDigits r).length = Q + 1 := natDigits_length_of_bounds r Q b1 hrlt
+      refine ⟨?_, fun _ => natDigits_head r hrpos⟩
+      have key : roundHalfEven (num * 10 ^ ((Q : Int) - e10).toNat) den = r := by
+        rw [hr]
+        unfold scale10
+        by_cases hneg : -e10 ≥ 0
+        · simp only [hneg, if_true]
+          have hf : ((Q : Int) - e10).toNat = (-e10).toNat + Q := by omega
+          rw [hf, Nat.pow_add, Nat.mul_assoc]
+        · simp only [hneg, if_false]
+          have hf : ((Q : Int) - e10).toNat + (- -e10).toNat = Q := by omega
+          have : num * 10 ^ Q = num * 10 ^ ((Q : Int) - e10).toNat * 10 ^ (- -e10).toNat := by
+            rw [Nat.mul_assoc, ← Nat.pow_add, hf]
+          rw [this, roundHalfEven_scale _ _ _ (Nat.pow_pos (by omega))]
+      rw [key, hlen]
+      congr 2
+      omega
+
+theorem genDigits_ite (mag prec : Nat) : GenDigits mag (if prec = 0 then 1 else prec) :=
+  genDigits_all mag _ (by split <;> omega)
+
 /-! ## repr digits (no presentation type, no precision) -/
 
 /-- What the repr-style presentation needs from digit generation (`PV.Dec`), as C17 states it:
@@ -806,18 +1027,17 @@ theorem layout_shape (ds : List Nat) (e : Int) (useExp up alt dot0 : Bool) (h : 
       have hd : d < 10 := h d (by simp)
       refine ⟨by simp [Spec.isDigit]; omega, noDigitHead_fracText _ _ _ (noDigitHead_expText _ _)⟩
 
-/-- The digit-generation facts (`PV.Dec`) the float theorem is relative to, per presentation type:
-    `%g`-style types need `GenDigits`, `%` needs the product `x · 100` to be a non-negative non-NaN
-    double (contract of the modelled multiplication), the repr-style presentation needs `ReprDigits`.
-    Decidable; holds on every double the check samples. -/
+/-- The digit-generation facts (`PV.Dec`) the float theorem is still relative to, per presentation type:
+    `%` needs the product `x · 100` to be a non-negative non-NaN double (contract of the modelled
+    multiplication), the repr-style presentation (no type, no precision) needs `ReprDigits`.
+    Every other type needs nothing: `GenDigits` is a theorem (`genDigits_all`).
+    Decidable; holds on every double the check samples, except the repr ties of the listed finding. -/
 def FloatFacts (p : PySpec) (mag : Nat) : Prop :=
   match p.type with
-  | some 103 | some 71 | some 110 =>
-    GenDigits mag (if p.precision.getD 6 = 0 then 1 else p.precision.getD 6)
   | some 37 => isNan (mul100 mag) = false ∧ isNeg (mul100 mag) = false
   | none =>
     match p.precision with
-    | some prec => GenDigits mag (if prec = 0 then 1 else prec)
+    | some _ => True
     | none => ReprDigits mag
   | _ => True
 
@@ -874,9 +1094,8 @@ theorem floatMagnitude_eq (p : PySpec) (wf : WfSpec p) (mag : Nat)
     simp only [hft, ht, Option.bind_none, hnan, hinf, Bool.false_eq_true, if_false, hpr, hal]
     cases hp : p.precision with
     | some prec =>
-      rw [hp] at hfacts
-      simp only at hfacts ⊢
-      have key := general_case p mag prec false true hf hs hfacts
+      simp only at ⊢
+      have key := general_case p mag prec false true hf hs (genDigits_ite mag prec)
       have hm : PV.C17.formatGeneral prec mag false p.alt true =
           PV.C17.formatGeneral (if prec = 0 then 1 else prec) mag false p.alt true := by
         unfold PV.C17.formatGeneral
@@ -974,12 +1193,11 @@ theorem floatMagnitude_eq (p : PySpec) (wf : WfSpec p) (mag : Nat)
       · have := noDigitHead_fracText (fixedFp mag (p.precision.getD 6)) p.alt [] rfl
         simpa [fixedFp, PV.C17.fixedPadded] using this
     · -- g
-      simp only at hfacts
       unfold floatBody floatMagnitude
       simp only [hft, ht, Option.bind_some, typeOfChar, hpr, hal]
       have hu : isUpperType (some 103) = false := by decide
       rw [hu]
-      have key := general_case p mag (p.precision.getD 6) false false hf hs hfacts
+      have key := general_case p mag (p.precision.getD 6) false false hf hs (genDigits_ite mag _)
       rw [key]
       have hsh := layout_shape
         (if p.alt then (expDigits mag ((if p.precision.getD 6 = 0 then 1 else p.precision.getD 6) - 1)).1
@@ -995,12 +1213,11 @@ theorem floatMagnitude_eq (p : PySpec) (wf : WfSpec p) (mag : Nat)
             · exact stripZeros_lt10 _ (expDigits_all_lt10 _ _))
       exact ⟨by simp, hsh.1, hsh.2⟩
     · -- G
-      simp only at hfacts
       unfold floatBody floatMagnitude
       simp only [hft, ht, Option.bind_some, typeOfChar, hpr, hal]
       have hu : isUpperType (some 71) = true := by decide
       rw [hu]
-      have key := general_case p mag (p.precision.getD 6) true false hf hs hfacts
+      have key := general_case p mag (p.precision.getD 6) true false hf hs (genDigits_ite mag _)
       rw [key]
       have hsh := layout_shape
         (if p.alt then (expDigits mag ((if p.precision.getD 6 = 0 then 1 else p.precision.getD 6) - 1)).1
@@ -1016,12 +1233,11 @@ theorem floatMagnitude_eq (p : PySpec) (wf : WfSpec p) (mag : Nat)
             · exact stripZeros_lt10 _ (expDigits_all_lt10 _ _))
       exact ⟨by simp, hsh.1, hsh.2⟩
     · -- n
-      simp only at hfacts
       unfold floatBody floatMagnitude
       simp only [hft, ht, Option.bind_some, typeOfChar, hpr, hal]
       have hu : isUpperType (some 110) = false := by decide
       rw [hu]
-      have key := general_case p mag (p.precision.getD 6) false false hf hs hfacts
+      have key := general_case p mag (p.precision.getD 6) false false hf hs (genDigits_ite mag _)
       rw [key]
       have hsh := layout_shape
         (if p.alt then (expDigits mag ((if p.precision.getD 6 = 0 then 1 else p.precision.getD 6) - 1)).1
